@@ -33,7 +33,8 @@ def St.set (s : St) (r : Nat) (x : VS) : St := { s with v := s.v.set r x }
   1 acquire, fallible (followed by `goto fail` when it fails)   2 acquire, not checked
   3 NULL-safe release (`Py_XDECREF`, guarded `free`)            4 `var = NULL`
   5 transfer r -> r2 (argument 10*r + r2)                       6 a `goto fail` without acquisition
-  7 release r if variable c is NULL (argument 10*r + c)         8 acquire r if it is NULL (cached object) -/
+  7 release r if variable c is NULL (argument 10*r + c)         8 acquire r if it is NULL (cached object)
+  9 read through r (an access through a stale pointer is recorded like a second release) -/
 abbrev Ev := Nat × Nat
 
 def Ev.fallible (e : Ev) : Bool := e.1 == 1 || e.1 == 6
@@ -55,6 +56,7 @@ def step (s : St) (e : Ev) : St :=
   | 5 => if s.get (e.2 / 10) = .live then s.set (e.2 / 10) .moved else s
   | 7 => if s.get (e.2 % 10) = .null then release s (e.2 / 10) else s
   | 8 => if s.get e.2 = .null then s.set e.2 .live else s      -- acquire and cache if the variable is NULL
+  | 9 => if s.get e.2 = .stale then { s with dbl := true } else s   -- read through the pointer (copy out)
   | _ => s
 
 /-- run the events of one clause; `stop = some i`: the fallible event number `i` fails (it is not
@@ -188,5 +190,22 @@ One executed path passes all sites in order. -/
 def emitPath (pre : List Ev) : List Bool → Bool → List Ev
   | [], _ => []
   | r :: rs, pending => (if pending then pre else []) ++ emitPath pre rs (pending && !r)
+
+/-! ## A caller-owned result that the C wrapper releases itself (user `final` clause)
+
+`Wrapc.wrap_function` concatenates the statement groups 0 pre_call, 1 call, 2 post_call_pattern,
+3 post_call, 4 final, 5 return.  For a result with a `final` clause: the call obtains the memory
+(variable 3), post_call copies it into the caller's buffer, final releases it. -/
+
+def finalGroupEvents : Nat → List Ev
+  | 1 => [(2, 3)]     -- call: the library hands over the object
+  | 3 => [(9, 3)]     -- post_call: copy out (read)
+  | 4 => [(3, 3)]     -- final: user supplied release
+  | _ => []
+
+def runGroups (order : List Nat) : St := runEvs (order.flatMap finalGroupEvents) St.init
+
+/-- released exactly once, never early: no access after the release, nothing still owned -/
+def St.releasedOnceNeverEarly (s : St) : Bool := s.settled && s.get 3 == .stale
 
 end Shroud.PyRes
